@@ -139,3 +139,23 @@ func init() {
 		},
 	}
 }
+
+func init() {
+	properties["C16"] = &Property{
+		ID:    "C16",
+		Title: "Decimal text conversion preserves the numeric value",
+		Pkgs:  []string{"./asetypes"},
+		Funcs: []string{`^\(asetypes\.Decimal\)\.(sanity|Cmp|IsNegative|Bytes|ByteSize|Int)$`, `^\(\*asetypes\.Decimal\)\.(String|SetString|Negate|SetBytes|SetInt64)$`, `^asetypes\.(NewDecimal|NewDecimalString)$`},
+		After: func(P *Prog, rep *Report, tier string) {
+			runIsland(rep, P.repoDir, "decimal-text", "asetypes", "c16_island_test.go", "TestIslandC16",
+				"all 741 (precision, scale) pairs with 0 <= scale <= precision <= 38, both signs, unscaled values {0, 1, 7, 10^k, 10^k-1 : k <= precision}, each also with surrounding spaces / leading zeros / trailing zeros; one unrepresentable numeral of each kind per pair; NewDecimal over precision, scale in -2..40; oracle math/big.Rat", 120)
+		},
+		Assumptions: []string{
+			"math/big, strings.Split and fmt.Sprintf contracts in /verif/specs/stdlib.spec (assumed)",
+			"the digit-level claims (exact expansion, canonical form, parse(format(d)) == d) are decided only on the bounded domain of the island; other digit strings are not covered",
+		},
+		Notes: []string{
+			"proved (unbounded): construction succeeds exactly for 0 <= scale <= precision <= 38; NewDecimalString propagates both errors; String stays within its digit string for every well-formed decimal; SetString leaves the decimal unchanged on error",
+		},
+	}
+}
